@@ -4,6 +4,8 @@ package provider
 
 import (
 	"context"
+	"os"
+	"runtime/debug"
 	"errors"
 	"fmt"
 	"sort"
@@ -13,6 +15,7 @@ import (
 	"testing/synctest"
 	"time"
 
+	"github.com/libp2p/go-libp2p-kad-dht/provider/internal/keyspace"
 	"github.com/libp2p/go-libp2p/core/peer"
 	ma "github.com/multiformats/go-multiaddr"
 	mh "github.com/multiformats/go-multihash"
@@ -90,6 +93,11 @@ type c17env struct {
 	addrs   []ma.Multiaddr
 	swarmAt []swarmSnap
 	calls   []string
+	// busy-loop detection
+	spinAt   time.Duration
+	spinN    int
+	spinning bool
+	spinWhat string
 }
 
 type swarmSnap struct {
@@ -102,7 +110,21 @@ func (e *c17env) now() time.Duration { return time.Since(e.t0) }
 func (e *c17env) GetClosestPeers(ctx context.Context, key string) ([]peer.ID, error) {
 	e.mu.Lock()
 	defer e.mu.Unlock()
+	e.spin("GetClosestPeers")
+	if e.spinning {
+		// break the loop so that the execution can end and report it: block until the context ends
+		e.mu.Unlock()
+		<-ctx.Done()
+		e.mu.Lock()
+		return nil, ctx.Err()
+	}
 	if e.offline {
+		// a failing lookup takes one virtual second: the provider retries a failed provide at once for as long
+		// as its connectivity checker is throttled (TriggerCheck is ignored within the online-check interval of
+		// the last check), and with failures that take no time at all virtual time could never advance
+		e.mu.Unlock()
+		time.Sleep(time.Second)
+		e.mu.Lock()
 		return nil, errors.New("sim: offline")
 	}
 	var ids []peer.ID
@@ -120,6 +142,23 @@ func (e *c17env) GetClosestPeers(ctx context.Context, key string) ([]peer.ID, er
 	}
 	e.calls = append(e.calls, fmt.Sprintf("%v:%s->%v", e.now(), kid.BitsOf([]byte(key), 6), got))
 	return ids, nil
+}
+
+// spin detects a busy loop: virtual time cannot advance while a goroutine keeps calling the
+// router, so a large number of calls at one virtual instant means the provider is spinning.
+func (e *c17env) spin(what string) {
+	t := e.now()
+	if t != e.spinAt {
+		e.spinAt, e.spinN = t, 0
+	}
+	e.spinN++
+	if e.spinN > 20000 && !e.spinning {
+		e.spinning = true
+		e.spinWhat = fmt.Sprintf("%d %s calls at virtual time %v without any time passing", e.spinN, what, t)
+		if os.Getenv("VMC_SPIN_STACK") == "1" {
+			e.spinWhat += "\n" + string(debug.Stack())
+		}
+	}
 }
 
 func (e *c17env) SendRequest(ctx context.Context, p peer.ID, m *pb.Message) (*pb.Message, error) {
@@ -236,6 +275,23 @@ func c17Run(x *vmc.X, cfg vmc.Cfg) {
 	kept := map[int]bool{}
 	stoppedAt := map[int]time.Duration{}
 	lastProvideOp := map[int]time.Duration{}
+	// the schedule prefix that covers each key, read from the provider (in-package)
+	schedPrefixes := func() map[int]string {
+		out := map[int]string{}
+		prov.scheduleLk.Lock()
+		defer prov.scheduleLk.Unlock()
+		for i, k := range e.keys {
+			if p, ok := keyspace.FindPrefixOfKey(prov.schedule, keyspace.MhToBit256(k)); ok {
+				out[i] = "/" + string(p)
+			}
+		}
+		return out
+	}
+	type c17restart struct {
+		t      time.Duration
+		before map[int]string
+	}
+	var restarts []c17restart
 	var outages [][2]time.Duration
 	outageStart := time.Duration(-1)
 	nextPeer := c.swarm
@@ -364,6 +420,7 @@ func c17Run(x *vmc.X, cfg vmc.Cfg) {
 		{"clock+I/4", func() bool { time.Sleep(c17I / 4); synctest.Wait(); return true }},
 		{"clock+I", func() bool { time.Sleep(c17I); synctest.Wait(); return true }},
 		{"restart", func() bool {
+			restarts = append(restarts, c17restart{t: e.now(), before: schedPrefixes()})
 			if err := prov.Close(); err != nil {
 				x.Failf("C17/close-error", "%v", err)
 				return false
@@ -394,6 +451,17 @@ func c17Run(x *vmc.X, cfg vmc.Cfg) {
 			return
 		}
 		synctest.Wait()
+		e.mu.Lock()
+		spinning, what := e.spinning, e.spinWhat
+		e.mu.Unlock()
+		if spinning {
+			var hs []string
+			for _, h := range hist {
+				hs = append(hs, h.name)
+			}
+			x.Failf("C17/busy-loop", "[%s] the provider spins: %s; last router calls: %v", strings.Join(hs, ";"), what, e.calls[max(0, len(e.calls)-6):])
+			return
+		}
 	}
 	// final phase: online, static swarm, three more intervals
 	e.mu.Lock()
@@ -511,7 +579,33 @@ func c17Run(x *vmc.X, cfg vmc.Cfg) {
 				continue
 			}
 			if t-prev > c17I+c17D {
-				x.Failf("C17/reprovide-gap", "[%s] k%d (kept) was not fully re-advertised between %v and %v: gap %v > interval %v + delay %v (final phase starts %v, ends %v, settle %v)", desc, k, prev, t, t-prev, c17I, c17D, phaseStart, end, settle)
+				var all []string
+				for _, q := range sends {
+					if q.key == k {
+						all = append(all, fmt.Sprintf("%v->%s", q.t, kid.BitsOf([]byte(q.to), 4)))
+					}
+				}
+				// a gap that spans a restart after which the key's region is scheduled under another prefix (the
+				// prefix-length estimate of the new process differs) has its own signature: known finding D20
+				sig, note := "C17/reprovide-gap", ""
+				after := schedPrefixes()
+				for _, r := range restarts {
+					if r.t > prev && r.t < t {
+						sig = "C17/reprovide-gap-across-restart"
+						if r.before[k] != after[k] {
+							sig = "C17/reprovide-gap-across-restart-with-rescheduled-region"
+							note = fmt.Sprintf(" [restart at %v; the key's region was scheduled under %q before it and is under %q now]", r.t, r.before[k], after[k])
+						}
+						break
+					}
+				}
+				x.Failf(sig, "[%s] k%d (kept) was not fully re-advertised between %v and %v: gap %v > interval %v + delay %v (final phase starts %v, ends %v, settle %v)"+note+"; every ADD_PROVIDER of this key: %v; operations at %v", desc, k, prev, t, t-prev, c17I, c17D, phaseStart, end, settle, all, func() []string {
+					var o []string
+					for _, h := range hist {
+						o = append(o, fmt.Sprintf("%s@%v", h.name, h.t))
+					}
+					return o
+				}())
 				return
 			}
 			prev = t
